@@ -2,7 +2,7 @@
    PARTIAL: the theorems are about the model (reference semantics L1 and chunk-stream operators L2 of Model.v);
    the repository's operators are tied to it by the black-box correspondence only (props/C08/NOTES.md). *)
 From Coq Require Import ZArith List Bool Permutation Sorted.
-From OG Require Import C08.Model C08.Proofs C08.Pipe C08.PipeProofs.
+From OG Require Import C08.Model C08.Proofs C08.Pipe C08.DescMerge C08.PipeProofs.
 Import ListNotations.
 
 (* Every operator that is a state machine over rows gives the same output and final state for every cut of its
@@ -147,6 +147,18 @@ Theorem C08_agg_pipeline_desc_refines_current : forall q aggs ms (parts : list (
   l2_agg_group_desc q aggs parts sizes sizes2 = agg_group true q aggs ms.
 Proof. exact l2_agg_group_desc_lemma. Qed.
 Print Assumptions C08_agg_pipeline_desc_refines_current.
+
+(* descending plain selections: the descending ordered merge of the readers' descending streams (SortedMergeTransform with
+   opt.Ascending = false) is the whole sorted row set, newest first - L1's descending rows, for every partition *)
+Theorem C08_merge_kd_eq_rev_sort : forall ls, Forall (Sorted row_ge) ls -> merge_kd ls = rev (sort_rows (concat ls)).
+Proof. exact merge_kd_eq_rev_sort. Qed.
+Print Assumptions C08_merge_kd_eq_rev_sort.
+
+Theorem C08_plain_pipeline_desc_refines_eval : forall q cols (parts : list (list series)) ms,
+  Permutation (concat parts) ms ->
+  merge_kd (map (fun p => rev (plain_group q cols p)) parts) = rev (plain_group q cols ms).
+Proof. exact plain_pipeline_desc_lemma. Qed.
+Print Assumptions C08_plain_pipeline_desc_refines_eval.
 
 (* the whole answer, ascending or descending: the pipeline computes eval_query_current for EVERY plan ... *)
 Theorem C08_pipeline_refines_eval_current : forall db q pl,
